@@ -682,6 +682,24 @@ def run_history(ops, base, klass):
             bind('B', Subclasses.of(klass))
         elif op == 'n':
             bind('A', klass, do_bind=False)
+        elif op in 'rR':
+            # bind() once more on the very convention object that is attached to the dataset: a second attachment all the same
+            h = 'A' if op == 'r' else 'B'
+            if handles[h] is None:
+                continue
+            try:
+                conv = handles[h].ems
+            except Exception as exc:  # noqa: BLE001
+                history.append(('access', h, 'raised', None, type(exc).__name__, None))
+                continue
+            keep.append(conv)
+            history.append(('access', h, 'returned', id(conv), type(conv).__name__, conv.dataset is handles[h]))
+            try:
+                conv.bind()
+            except Exception as exc:  # noqa: BLE001
+                history.append(('bind', h, 'raised', id(conv), type(exc).__name__, None))
+                continue
+            history.append(('bind', h, 'returned', id(conv), type(conv).__name__, conv.dataset is handles[h]))
         elif op in 'cCdD':
             src = handles['A']
             new = {'c': lambda: src.copy(), 'C': lambda: src.copy(deep=True),
@@ -852,13 +870,13 @@ def run(ctx):
         if ctx.shard == 0:
             obs.extra['histories_in_space'] = len(sequences)
             obs.extra['history_max_length'] = max_len
-    wide = 'abcCxyBYndDsg'
+    wide = 'abcCxyBYndDsgrR'
     for case, rng in ctx.cases(ctx.n(200, 12000), stream='hist-random'):
         length = int(rng.integers(6, 21))
         ops, has_b = [], False
         while len(ops) < length:
             op = wide[int(rng.integers(len(wide)))]
-            if op in 'xyYs' and not has_b:
+            if op in 'xyYsR' and not has_b:
                 continue
             if op in 'cCdD':
                 has_b = True
